@@ -166,8 +166,8 @@ type WEval struct {
 	depth      int
 	memo       map[ssa.Value]*Lay
 	inPhi      map[*ssa.Phi]bool
-	elemNames  map[ssa.Value]string // loop element loads -> "coll[i]"
-	allocEpoch map[*ssa.Alloc]int   // reader paths: named locals are printed as name#epoch
+	elemNames  map[ssa.Value]string   // loop element loads -> "coll[i]"
+	allocEpoch map[*ssa.Alloc]int     // reader paths: named locals are printed as name#epoch
 	pathPhi    map[*ssa.Phi]ssa.Value // evaluation along one enumerated path: the incoming value chosen at each merge
 }
 
@@ -420,7 +420,95 @@ func (w *WEval) byteOf(v ssa.Value) *Lay {
 		}
 		break
 	}
+	if k, ok := constInt(v); ok {
+		return &Lay{K: "const", S: fmt.Sprintf("%02x", k.Int64()&0xff)}
+	}
+	if ph, ok := v.(*ssa.Phi); ok && !isLoopHeader(ph.Block()) && !w.inPhi[ph] {
+		// a byte chosen on the way here: one alternative per incoming value
+		if ch, ok := w.pathPhi[ph]; ok {
+			return w.byteOf(ch)
+		}
+		b := ph.Block()
+		if idom := b.Idom(); idom != nil {
+			w.inPhi[ph] = true
+			defer delete(w.inPhi, ph)
+			return w.selectOver(idom, b, func(d *DPath) *Lay {
+				if d.EndKind != "stop" || d.Target != b || len(d.Blocks) == 0 {
+					return nil
+				}
+				last := d.Blocks[len(d.Blocks)-1]
+				for i, p := range b.Preds {
+					if p == last {
+						return w.byteOf(ph.Edges[i])
+					}
+				}
+				return nil
+			})
+		}
+	}
 	return &Lay{K: "le", W: 1, S: w.term(v)}
+}
+
+// fixedBufferStores: a make([]byte, n) with constant n whose elements are assigned at constant
+// indices. A store counts when every branch condition dominating it is decided true by the
+// parameter valuation, is dropped when one is decided false, and makes the buffer unknown when
+// a condition is left open or two live stores hit the same index.
+func (w *WEval) fixedBufferStores(al *ssa.Alloc, n int) *Lay {
+	items := make([]*Lay, n)
+	for _, r := range *al.Referrers() {
+		// the slice al[:] is the buffer value; its IndexAddr users are the element stores
+		var ias []*ssa.IndexAddr
+		switch x := r.(type) {
+		case *ssa.IndexAddr:
+			ias = append(ias, x)
+		case *ssa.Slice:
+			if x.Referrers() != nil {
+				for _, rr := range *x.Referrers() {
+					if ia, ok := rr.(*ssa.IndexAddr); ok {
+						ias = append(ias, ia)
+					}
+				}
+			}
+		}
+		for _, ia := range ias {
+			if ia.Referrers() == nil {
+				continue
+			}
+			for _, rr := range *ia.Referrers() {
+				st, ok := rr.(*ssa.Store)
+				if !ok || st.Addr != ssa.Value(ia) {
+					continue
+				}
+				idx, ok := constInt(ia.Index)
+				if !ok || idx.Sign() < 0 || int(idx.Int64()) >= n {
+					return unk("buffer written at a non-constant index")
+				}
+				live := true
+				for _, dc := range dominatingConds(st.Block()) {
+					cv, known := w.constBool(dc.cond)
+					if !known {
+						return unk("buffer element written under a condition the valuation leaves open")
+					}
+					if cv != dc.truth {
+						live = false
+					}
+				}
+				if !live {
+					continue
+				}
+				if items[idx.Int64()] != nil {
+					return unk("buffer element written twice")
+				}
+				items[idx.Int64()] = w.byteOf(st.Val)
+			}
+		}
+	}
+	for i := range items {
+		if items[i] == nil {
+			items[i] = &Lay{K: "const", S: "00"}
+		}
+	}
+	return seqOf(items...)
 }
 
 // evalFilledMake: buf := make([]byte, L) with a run-time L, then filled in the same basic block by
@@ -606,12 +694,26 @@ func (w *WEval) evalSlice(x *ssa.Slice) *Lay {
 			}
 		}
 		// element stores make the content non-zero
+		written := false
 		if refs := al.Referrers(); refs != nil {
 			for _, r := range *refs {
 				if _, ok := r.(*ssa.IndexAddr); ok {
-					return unk("buffer written element-wise")
+					written = true
 				}
 			}
+		}
+		if x.Referrers() != nil {
+			for _, r := range *x.Referrers() {
+				if _, ok := r.(*ssa.IndexAddr); ok {
+					written = true
+				}
+			}
+		}
+		if written {
+			if lo != 0 || n > 64 {
+				return unk("buffer written element-wise")
+			}
+			return w.fixedBufferStores(al, n)
 		}
 		return &Lay{K: "zero", W: n}
 	case "slicelit", "varargs":
@@ -710,6 +812,9 @@ func (w *WEval) evalCall(c *ssa.Call) *Lay {
 			return &Lay{K: "const", S: fmt.Sprintf("%02x", k.Int64())}
 		}
 		return &Lay{K: "varint", S: w.term(c.Call.Args[0])}
+	case "github.com/libsv/go-bk/crypto.Hash160":
+		// 20 opaque bytes, named by the call
+		return &Lay{K: "raw", S: w.term(c)}
 	case "github.com/libsv/go-bk/crypto.Sha256d":
 		return &Lay{K: "hash", S: "sha256d", Items: []*Lay{w.eval(c.Call.Args[0])}}
 	case "encoding/hex.EncodeToString":
